@@ -6,12 +6,21 @@
   adapter forwards each call as exactly one call, so `n` does not depend on the adapter stack) — the
   list of calls `EG.C04.prefix_law_sites` speaks about, for whichever call sites they are made at —
   and `tested` is the number of fault positions the harness enumerates for that `n` (all of them). Other drawables return `none` (printed `skip`).
+
+  `faults.whitespace`: `n` = length of the call list of `MonoFont.drawWhitespace` (EG/Model/Font.lean)
+  for the font constants of the generated font table (fonts 0..2 = `ascii::FONT_4X6 / FONT_6X10 /
+  FONT_9X15`, 3 = `FONT_6X10` with character spacing 2) and the style the harness builds from the mask.
+  `faults.pixel`, `faults.pixiter`, `faults.clear`: one call on the drawn-on target (`Pixel::draw` and
+  `PixelIteratorExt::draw` are one `draw_iter`; `clear` is one `Call.clear`), lowered by the adapter
+  stack to exactly one call on the root (`lowerStack` maps a call to a call).
 -/
 import EG.Driver.Util
 import EG.Model.StyledRect
 import EG.Model.Circle
 import EG.Model.Ellipse
 import EG.Model.RoundedRect
+import EG.Model.Font
+import EG.Model.Adapters
 namespace EG.Driver
 open EG
 
@@ -28,7 +37,79 @@ private def Toks.fstyle (t : Toks) : Style × Toks :=
 /-- number of fault positions enumerated for a run of `n` calls: every `k < n` (no sampling). -/
 private def testedCount (n : Nat) : Nat := n
 
+/-- the font of `faults.whitespace` / `faults.text` number `i`, from the generated table -/
+private def faultFont (i : Nat) : Option Font.MonoFont :=
+  let name := match i with | 0 => "FONT_4X6" | 2 => "FONT_9X15" | _ => "FONT_6X10"
+  match Generated.fontTable.find? (fun r => r.module == "ascii" && r.name == name) with
+  | some r => some (if i == 3 then { Font.fontOfRec r with spacing := 2 } else Font.fontOfRec r)
+  | none => none
+
+/-- Rgb565::new(r, g, b) as a raw value -/
+private def rgb565 (r g b : Nat) : Color := r * 2048 + g * 32 + b
+
+/-- the style `MonoTextStyleBuilder` yields for a colour mask (bit 0 text colour, 1 background,
+2 `underline()` = `DecorationColor::TextColor`, 3 `strikethrough_with_color`) -/
+private def faultStyle (mask : Nat) : Font.Style :=
+  ⟨if mask % 2 == 1 then some (rgb565 1 2 3) else none,
+   if mask / 2 % 2 == 1 then some (rgb565 3 2 1) else none,
+   if mask / 4 % 2 == 1 then .textColor else .none,
+   if mask / 8 % 2 == 1 then .custom (rgb565 9 9 9) else .none⟩
+
+private def faultBaseline : Nat → Font.Baseline
+  | 0 => .top | 1 => .bottom | 2 => .middle | _ => .alphabetic
+
+/-- the adapter stacks of `fault_runs!` (m_faults.rs), root-most adapter first -/
+private def faultStack (adapter : Nat) : Stack :=
+  let clip : Rect := ⟨⟨-3, -2⟩, ⟨30, 25⟩⟩
+  match adapter with
+  | 0 => []
+  | 1 => [.clipped clip]
+  | 2 => [.translated ⟨4, -3⟩]
+  | 3 => [.cropped clip]
+  | 4 => [.translated ⟨4, -3⟩, .clipped clip]
+  | _ => [.clipped clip, .cropped ⟨⟨1, 1⟩, ⟨20, 20⟩⟩, .translated ⟨-2, 5⟩]
+
+/-- calls the root target receives for the calls issued on top of adapter stack `adapter` -/
+private def onRoot (adapter : Nat) (calls : List Call) : List Call :=
+  calls.map (lowerStack ⟨⟨-40, -40⟩, ⟨120, 120⟩⟩ (faultStack adapter))
+
+/-- `x,y;x,y;...` or `-` -/
+private def fParsePts (s : String) : List Pt :=
+  if s == "-" then [] else
+  (s.splitOn ";").map (fun p =>
+    match p.splitOn "," with
+    | [x, y] => ⟨parseInt x, parseInt y⟩
+    | _ => ⟨0, 0⟩)
+
+private def answer (cs : List Call) : Option String := some s!"n={cs.length} tested={testedCount cs.length}"
+
 def handleFaults (stream : String) (t : Toks) : Option String :=
+  if stream == "faults.whitespace" then
+    let (fi, t) := t.nat
+    let (mask, t) := t.nat
+    let (bl, t) := t.nat
+    let (width, t) := t.nat
+    let (adapter, _) := t.nat
+    match faultFont fi with
+    | some f => answer (onRoot adapter (f.drawWhitespace (faultStyle mask) width ⟨3, 9⟩ (faultBaseline bl)).1)
+    | none => none
+  else if stream == "faults.pixel" then
+    let (p, t) := t.pt
+    let (c, t) := t.nat
+    let (adapter, _) := t.nat
+    -- adapter 6: `color_converted()` on the bare target
+    answer (onRoot (if adapter == 6 then 0 else adapter) [Call.drawIter [(p, c)]])
+  else if stream == "faults.pixiter" then
+    let (ptsTok, t) := t.str
+    let pts := fParsePts ptsTok
+    let (c, t) := t.nat
+    let (adapter, _) := t.nat
+    answer (onRoot (if adapter == 6 then 0 else adapter) [Call.drawIter (pts.map (fun p => (p, c)))])
+  else if stream == "faults.clear" then
+    let (c, t) := t.nat
+    let (adapter, _) := t.nat
+    answer (onRoot adapter [Call.clear c])
+  else
   if stream != "faults.shape" then none else
   let (kind, t) := t.str
   let calls? : Option (List Call) :=
